@@ -2,10 +2,15 @@ package main
 
 // Concurrent part of C19 (beyond the property's stated quantifier, added because an
 // independently seeded change moved the linkage checks of AddGroup out of the critical
-// section): two AddGroup calls for sibling groups (same predecessor) run under the
-// cooperative scheduler with a scheduling point before every statement of groupchain.go
-// and a model of its mutex; for every interleaving within the preemption bound exactly
-// one call may succeed and the chain must be the list of one of the two sequential orders.
+// section).  Real group-chain calls run as two threads under the cooperative scheduler with a
+// scheduling point before every statement of groupchain.go / groupchain_sync.go and a model
+// of the chain's RWMutex; every schedule within the preemption bound is explored.
+//
+//	siblings-at-k   AddGroup(alt0) || AddGroup(alt1), both valid successors of the same last
+//	                group: exactly one succeeds, the chain is the list of one sequential order.
+//	add-vs-switch   chain [.., a0]: AddGroup(successor of a0) || fork switch
+//	                (removeFromCommonAncestor(parent of a0); AddGroup(a1)): whatever the order,
+//	                every serialisation ends in [.., a1]; the switch's own add must succeed.
 
 import (
 	"fmt"
@@ -22,54 +27,102 @@ type concCase struct {
 	Choices []int  `json:"choices"`
 }
 
-func concPart(c *fw.Ctx, only *concCase) {
-	if c.Shard != 0 && only == nil {
-		return
+type concRun struct {
+	errs    [2]error
+	res     sched.Result
+	allowed [][]*types.Group // final lists of the serialisations
+	okWant  [][2]bool        // which calls succeed in serialisation i
+	fails   [][]failure
+}
+
+func withNext(list []*types.Group, g *types.Group) []*types.Group {
+	mm := &refGroups{list: append([]*types.Group{}, list...)}
+	g.GroupHeight = uint64(len(mm.list))
+	return append(mm.list, g)
+}
+
+func concRunOnce(sc string, ch sched.Chooser) (r concRun) {
+	if err := resetToPristine(); err != nil {
+		infra("%v", err)
 	}
+	m := newModel()
+	var bodies []func()
+	switch sc {
+	case "siblings-at-1", "siblings-at-2":
+		if sc == "siblings-at-2" {
+			if s := applyOp(m, opAdd0); !s.Accepted {
+				infra("setup add failed: %s", s.Err)
+			}
+		}
+		g0, g1 := m.build(opAdd0), m.build(opAdd1)
+		bodies = []func(){
+			func() { r.errs[0] = core.GetGroupChain().AddGroup(g0) },
+			func() { r.errs[1] = core.GetGroupChain().AddGroup(g1) },
+		}
+		r.allowed = [][]*types.Group{withNext(m.list, m.build(opAdd0)), withNext(m.list, m.build(opAdd1))}
+		r.okWant = [][2]bool{{true, false}, {false, true}}
+	case "add-vs-switch":
+		base := append([]*types.Group{}, m.list...)
+		a1 := m.build(opAdd1)
+		a1model := m.build(opAdd1)
+		if s := applyOp(m, opAdd0); !s.Accepted {
+			infra("setup add failed: %s", s.Err)
+		}
+		x := m.build(opAdd0)
+		anc := base[len(base)-1]
+		bodies = []func(){
+			func() { r.errs[0] = core.GetGroupChain().AddGroup(x) },
+			func() {
+				core.VerifGroupRemoveFromAncestor(anc)
+				r.errs[1] = core.GetGroupChain().AddGroup(a1)
+			},
+		}
+		final := withNext(base, a1model)
+		r.allowed = [][]*types.Group{final, final}
+		r.okWant = [][2]bool{{true, true}, {false, true}}
+	default:
+		infra("unknown scenario %s", sc)
+	}
+	r.res = sched.Run(bodies, ch, 6000)
+	for _, l := range r.allowed {
+		r.fails = append(r.fails, checkAgainst(l))
+	}
+	return
+}
+
+func concPart(c *fw.Ctx, only *concCase) {
 	bound := 2
 	if c.Thorough() {
 		bound = 3
 	}
-	scenarios := []string{"siblings-at-1", "siblings-at-2"}
-	for _, sc := range scenarios {
+	for _, sc := range []string{"siblings-at-1", "siblings-at-2", "add-vs-switch"} {
 		if only != nil && only.Conc != sc {
 			continue
 		}
 		finals := map[string]int{}
-		run := func(ch sched.Chooser) (errs [2]error, fails [][]failure, res sched.Result, lists [][]*types.Group) {
-			if err := resetToPristine(); err != nil {
-				infra("%v", err)
-			}
-			m := newModel()
-			if sc == "siblings-at-2" {
-				if s := applyOp(m, opAdd0); !s.Accepted {
-					infra("setup add failed: %s", s.Err)
-				}
-			}
-			g0, g1 := m.build(opAdd0), m.build(opAdd1)
-			bodies := []func(){
-				func() { errs[0] = core.GetGroupChain().AddGroup(g0) },
-				func() { errs[1] = core.GetGroupChain().AddGroup(g1) },
-			}
-			res = sched.Run(bodies, ch, 4000)
-			for _, op := range []string{opAdd0, opAdd1} {
-				mm := &refGroups{list: append([]*types.Group{}, m.list...)}
-				mg := mm.build(op)
-				mg.GroupHeight = uint64(len(mm.list))
-				mm.list = append(mm.list, mg)
-				lists = append(lists, mm.list)
-				fails = append(fails, checkAgainst(mm.list))
-			}
-			return
+		shard, nshards := c.Shard, c.NShards
+		if only != nil {
+			shard, nshards = 0, 1
 		}
-		st := fw.Explore(bound, func(ch *fw.Chooser) {
-			errs, fails, res, _ := run(ch)
+		var r concRun
+		st := fw.ExploreShard(bound, func(ch *fw.Chooser) {
+			r = concRunOnce(sc, ch)
+		}, func(ch *fw.Chooser) {
+			res := r.res
 			c.Transition(int64(res.Steps))
-			key := fmt.Sprintf("ok0=%v ok1=%v f0=%d f1=%d", errs[0] == nil, errs[1] == nil, len(fails[0]), len(fails[1]))
+			ok := [2]bool{r.errs[0] == nil, r.errs[1] == nil}
+			key := fmt.Sprintf("ok=%v", ok)
+			for _, f := range r.fails {
+				key += fmt.Sprintf(" f=%d", len(f))
+			}
 			finals[key]++
 			cs := concCase{Conc: sc, Choices: ch.Choices()}
 			if res.Deadlock {
 				c.Violation("C19:conc:deadlock", "schedules", fmt.Sprintf("scenario %s: deadlock under schedule %v", sc, res.Schedule), cs)
+				return
+			}
+			if res.Horizon {
+				c.Violation("C19:conc:no-progress", "schedules", fmt.Sprintf("scenario %s: horizon reached under schedule %v", sc, res.Schedule), cs)
 				return
 			}
 			for i, p := range res.Panics {
@@ -78,21 +131,34 @@ func concPart(c *fw.Ctx, only *concCase) {
 					return
 				}
 			}
-			ok0, ok1 := errs[0] == nil, errs[1] == nil
-			good := (ok0 && !ok1 && len(fails[0]) == 0) || (ok1 && !ok0 && len(fails[1]) == 0)
-			if !good {
-				msg := fmt.Sprintf("scenario %s, schedule %v (preemptions %d): AddGroup(alt0) err=%v, AddGroup(alt1) err=%v; the chain is neither [.., alt0] (%d mismatches) nor [.., alt1] (%d mismatches)",
-					sc, res.Schedule, res.Preemptions, errs[0], errs[1], len(fails[0]), len(fails[1]))
-				if len(fails[0]) > 0 {
-					msg += "; e.g. " + fails[0][0].Msg
+			good := false
+			for i := range r.allowed {
+				if ok == r.okWant[i] && len(r.fails[i]) == 0 {
+					good = true
 				}
-				c.Violation("C19:conc:sibling-adds-not-serialised", "schedules", msg, cs)
 			}
-		}, func(ch *fw.Chooser) {}, func() bool { return c.Expired() })
+			if !good {
+				msg := fmt.Sprintf("scenario %s, schedule %v (preemptions %d): thread 0 err=%v, thread 1 err=%v; the result equals no serial order of the two calls (mismatches against the allowed final lists: %d, %d)",
+					sc, res.Schedule, res.Preemptions, r.errs[0], r.errs[1], len(r.fails[0]), len(r.fails[1]))
+				for _, f := range r.fails {
+					if len(f) > 0 {
+						msg += "; e.g. " + f[0].Msg
+						break
+					}
+				}
+				sig := "C19:conc:sibling-adds-not-serialised"
+				if sc == "add-vs-switch" {
+					sig = "C19:conc:add-vs-fork-switch-not-serialised"
+				}
+				c.Violation(sig, "schedules", msg, cs)
+			}
+		}, func() bool { return c.Expired() }, shard, nshards)
 		c.Eval(st.Executions)
 		c.Trace(st.Executions)
 		c.Count("conc_schedules_explored", st.Executions)
-		c.Note("conc_"+sc, fmt.Sprintf("schedules=%d outcome_classes=%v max_points=%d bound=%d", st.Executions, finals, st.MaxPoints, bound))
+		if c.Shard == 0 {
+			c.Note("conc_"+sc, fmt.Sprintf("shard 0 of %d: schedules=%d outcome_classes=%v max_points=%d bound=%d", nshards, st.Executions, finals, st.MaxPoints, bound))
+		}
 		if st.Divergence != nil {
 			c.Violation("C19:conc:harness-replay-divergence", "schedules", st.Divergence.Error(), concCase{Conc: sc})
 		}
